@@ -319,4 +319,7 @@ class TrioEventLoop(EventLoop):
             # closed and calling wait_readable with a closed fd does not work.
             while not scope.cancel_called:
                 await self._wait_readable(fd)
+                if scope.cancel_called:
+                    # removed by another callback that ran since the descriptor became readable
+                    break
                 callback()
